@@ -2,7 +2,10 @@
 
 package flyt
 
-import "context"
+import (
+	"context"
+	"fmt"
+)
 
 // C18 — a successful run never yields the empty action, for any node kind.
 
@@ -82,8 +85,20 @@ var c18OnlyNonEmpty bool
 
 // c18Node builds the node kind under test (forks on the kind; the action stays symbolic)
 func c18Node(act Action) Node {
-	kinds := 15
+	kinds := 16
 	switch vChoice("kind", kinds) {
+	case 15:
+		// a post that FAILS — with an error that wraps a context error although the run's context is
+		// alive (its own inner timeout): the run fails; if it is reported as a success, then not with
+		// the empty action
+		vCover("kind-post-fails-with-context-looking-error")
+		c18OnlyNonEmpty = true
+		return NewNode().WithPostFuncAny(func(ctx context.Context, s *SharedStore, p, e any) (Action, error) {
+			if vNondet[bool]("deadlineKind") {
+				return act, fmt.Errorf("save result: %w", context.DeadlineExceeded)
+			}
+			return act, fmt.Errorf("save result: %w", context.Canceled)
+		})
 	case 14:
 		// a batch node given a plain (non-batch) post function as constructor option and no batch
 		// post function: whatever the library makes of that function, a successful run reports a
